@@ -834,12 +834,28 @@ class ProgGen:
 		name = f'C{len(self.classes)}'
 		r = self.rnd
 		fields = [(f'f{len(self.classes)}{i}', self.pick([T_INT, T_INT, T_STR, T_BOOL, ('list', T_INT)])) for i in range(r.randint(1, 3))]
-		info = {'fields': fields, 'methods': [], 'props': [], 'base': base, 'ctor': [], 'factory': None}
+		info = {'fields': fields, 'methods': [], 'props': [], 'base': base, 'ctor': [], 'factory': None, 'inner': None}
 		tags: set = set()
-		lines = [f'class {name}({base}):' if base else f'class {name}:']
+		k_cls = len(self.classes)
+		lines = []
+		helper = None
+		if self.chance(0.3) and self.on('member-shadows-global'):
+			# a module-level function and a class member of another type with the same name: bare names inside methods (also inside
+			# nested blocks and comprehensions) mean the module-level one
+			helper = f'h{k_cls}'
+			ha = self.fresh('a')
+			lines += [f'def {helper}({ha}: int) -> int:', f'\treturn {ha} + {self.pick(PRIMES)}', '']
+			tags.add('member-shadows-global')
+		lines += [f'class {name}({base}):' if base else f'class {name}:']
 		for f, t in fields:
 			lines.append(f'\t{f}: {py_ty(t)}')
 		lines.append('')
+		if self.chance(0.3) and self.on('nested-class'):
+			inner = f'I{k_cls}'
+			info['inner'] = inner
+			tags.add('nested-class')
+			lines += [f'\tclass {inner}:', f'\t\tg{k_cls}: int', '', f'\t\tdef __init__(self, g{k_cls}: int) -> None:', f'\t\t\tself.g{k_cls} = g{k_cls}', '',
+				f'\t\tdef mi{k_cls}(self) -> int:', f'\t\t\treturn self.g{k_cls} + {self.pick(PRIMES)}', '']
 		# constructor
 		params = [(f'a{i}', t) for i, (f, t) in enumerate(fields) if t[0] != 'list' or self.chance(0.5)]
 		base_ctor = self.classes[base]['ctor'] if base else []
@@ -899,6 +915,13 @@ class ProgGen:
 			lines += ['\t@classmethod', f'\tdef make(cls{"".join(f", {p}: {py_ty(t)}" for p, t in fparams)}) -> \'{name}\':', f'\t\treturn cls({", ".join(args)})', '']
 			info['factory'] = fparams
 			tags.add('classmethod-def')
+		if helper:
+			q, v, i, e = self.fresh('q'), self.fresh(), self.fresh('i'), self.fresh('e')
+			w = self.fresh()
+			lines += [f'\tdef {helper}(self) -> str:', f"\t\treturn '{self.pick(['x', 'yz'])}'", '',
+				f'\tdef mc{k_cls}(self, {q}: int) -> int:', f'\t\t{v} = 0', f'\t\tif {q} > 0:', f'\t\t\t{v} = {helper}({q})', f'\t\tfor {i} in range(2):', f'\t\t\t{v} += {helper}({i})',
+				f'\t\t{w} = [{helper}({e}) for {e} in range(2)]', f'\t\treturn {v} + {w}[0]', '']
+			info['methods'] = info['methods'] + [(f'mc{k_cls}', [(q, T_INT)], T_INT)]
 		self.lines += lines
 		self.class_tags = getattr(self, 'class_tags', set()) | tags
 
@@ -958,7 +981,7 @@ class ProgGen:
 			return self.pick([n, '1', '7', f'{n} + 1', f'int(len({s_}))'])
 
 		def op() -> list[str]:
-			c = r.randint(0, 33) if self.force_op is None else self.force_op
+			c = r.randint(0, 36) if self.force_op is None else self.force_op
 			v = self.fresh()
 			k = key()
 			if c == 0:
@@ -1032,6 +1055,14 @@ class ProgGen:
 				return [f'\t{d}.clear()' if self.chance(0.3) else f'\t{xs}.clear()', f'\t{out}.append(len({d}) * 10 + len({xs}))']
 			if c == 32:
 				return [f'\t{n} {self.pick(["*=", "-=", "^=", "|=", "&=", "+="])} {self.pick(["3", "5", "6"])}', f'\t{out}.append({n})']
+			if c == 34:
+				# slices whose bounds are expressions, not literals (start > 0 and end < len for some calls)
+				w = self.pick(['1', '2'])
+				return [f'\tif {n} >= 0 and {n} + {w} <= int(len({s_})):', f'\t\t{v} = {s_}[{n}:{n} + {w}]', f"\t\t{out}.append(len({v}) * 10 + int({v} == 'a') + int({v} == 'ab') * 2)"]
+			if c == 35:
+				return [f'\tif {n} >= 0 and {n} + 1 <= int(len({xs})):', f'\t\t{v} = {xs}[{n}:{n} + 1]', f'\t\t{out}.append(len({v}) * 100 + {v}[0])']
+			if c == 36:
+				return [f'\tif {n} >= 0 and {n} <= int(len({s_})):', f'\t\t{v} = {s_}[{n}:]', f'\t\t{out}.append(len({v}))', f'\t\t{v} = {s_}[:{n}]', f'\t\t{out}.append(len({v}))']
 			i2 = self.fresh('i')
 			return [f'\t{i2} = 0', f'\twhile True:', f'\t\t{i2} += 1', f'\t\tif {i2} > {self.pick(["3", "5"])}:', f'\t\t\tbreak', f'\t\tif {i2} % 2 == 0:', f'\t\t\tcontinue', f'\t\t{out}.append({i2})']
 
@@ -1043,7 +1074,21 @@ class ProgGen:
 		self.funcs.append((name, params, ('list', T_INT), tags))
 		ds = [{'a': 5, 'b': 0}, {}, {'b': -3, 'zz': 1}, {'a': -1}]
 		xss = [[], [1], [0, 2], [3, -1, 4]]
-		self.fixed_calls[name] = [[self.pick(xss), self.pick(ds), self.pick(['a', 'b', '', 'ab', 'xaab']), self.pick([-1, 0, 2, 3, 6])] for _ in range(5)]
+		# three vectors that put indices strictly inside the sequences (start > 0, end < len), then random ones
+		self.fixed_calls[name] = [[[3, -1, 4], {'a': 5, 'b': 0}, 'xaab', 1], [[0, 2, 7, 1], {'b': -3, 'zz': 1}, 'abcab', 2], [[1], {'a': -1}, 'ab', 0]] + \
+			[[self.pick(xss), self.pick(ds), self.pick(['a', 'b', '', 'ab', 'xaab']), self.pick([-1, 0, 1, 2, 3, 6])] for _ in range(3)]
+
+	def gen_inner_func(self, cname: str) -> None:
+		"""Uses the class nested in `cname` through its qualified name, with inferred declarations and as a list element type."""
+		k = int(cname[1:])
+		inner = self.classes[cname]['inner']
+		name = f'f{len(self.funcs)}'
+		a = self.fresh('a')
+		o, ws, v = self.fresh('o'), self.fresh(), self.fresh()
+		body = [f'\t{o} = {cname}.{inner}({a})', f'\t{ws} = [{cname}.{inner}(1), {cname}.{inner}({a} + 1)]', f'\t{v} = {ws}[1]',
+			f'\treturn {o}.mi{k}() + {v}.g{k} * 10 + len({ws}) * 100']
+		self.lines += [f'def {name}({a}: int) -> int:'] + body + ['']
+		self.funcs.append((name, [(a, T_INT, None)], T_INT, {'nested-class'}))
 
 	def exc_class(self, cx: Ctx) -> str:
 		"""RuntimeError or the program's own subclass of it (raise and except sites choose independently: a handler for the subclass lets the base through)."""
@@ -1255,6 +1300,9 @@ class ProgGen:
 		nfun = r.randint(2, 4)
 		for i in range(nfun):
 			self.gen_func(entry=(i >= nfun - 2) or self.chance(0.3))
+		for cname in sorted(self.classes):
+			if self.classes[cname].get('inner'):
+				self.gen_inner_func(cname)
 		if self.chance(0.4) and self.on('operand-probe'):
 			self.gen_probe_func()
 		if self.chance(self.p_generic) and self.on('generic-class'):
